@@ -18,9 +18,9 @@ CHECKS = {
  "C09": ("exploration", "exhaustive enumeration of inputs and an enumerated tape set per public configuration; comparison of recorded per-party channel-operation sequences",
          "For every public configuration, every input assignment under one tape and a set of tapes under one assignment are executed (including two configurations with messages above 64 KiB); per party the ordered list of (peer, direction, label, length, poll index, completion rank) must be identical.",
          "default schedule; coins come from the harness's deterministic entropy backend (tapes are enumerated integers)", "4.C09", "E1"),
- "C12": ("model_checking", "stateless model checking of the real engine: deviation-bounded exhaustive schedule exploration (swap/starve) with state-hash pruning under an owned executor and channel",
+ "C12": ("model_checking", "stateless model checking of the real engine: deviation-bounded exhaustive schedule exploration (swap/starve/spurious poll) with state-hash pruning under an owned executor and channel",
          "All schedules with at most k deviations from the default policy (k per configuration in the evidence), capacities 1/2/unbounded, n=2..4, plus a shape sweep (batch-boundary circuits, three global policies) are executed on the real code; a communication skeleton extracted with one starve run per operation is checked for all interleavings with stateright (BFS and DFS agree) and bound to the code both ways; each must terminate with the clear-text result, never have two sends or receives outstanding to one peer, and respect commit-before-reveal ordering. Deadlock detection is exact (no enabled action).",
-         "bounded number of deviations on real code; root future polled only when woken; skeleton conformance: every explored real execution is a word of the model, sampled cover paths of the model are followed by the code", "4.C12", "E1"),
+         "bounded number of deviations on real code; skeleton conformance: every explored real execution is a word of the model, sampled cover paths of the model are followed by the code", "4.C12", "E1"),
  "C18": ("exploration", "exhaustive enumeration of an invalid-argument menu (one argument at a time, each recipient pattern) on the real mpc, counting channel operations",
          "Every value of every argument's invalid menu (party indices at and far beyond the boundary, in last and non-last position, output sets empty / out of range / repeated / unsorted, wrong input lengths, circuits failing validation, inconsistent counters, misplaced or surplus Input instructions) is passed to one party at a time and to all parties; the call must return Err with zero channel operations (or, for repeated output indices, behave as a set), and never panic.",
          "absurd and_ops counters are tried in child processes (an allocation failure aborts)", "4.C18", "E1+E3"),
